@@ -61,8 +61,20 @@ func (g *FnGen) incrementalScript() string {
 // renderBody renders items; if upTo >= 0 only the obligation with that item index is checked
 // (earlier obligations become assumptions) and a model is requested.
 func (g *FnGen) renderBody(upTo int, model bool) string {
+	return g.renderBodyOpt(upTo, model, false)
+}
+
+// renderBodyOpt: with dropQuant, quantified assumptions are left out (fewer assumptions: an
+// "unsat" answer is still a valid proof, a "sat" answer is not a counterexample).
+func (g *FnGen) renderBodyOpt(upTo int, model bool, dropQuant bool) string {
 	var b strings.Builder
 	for i, it := range g.items {
+		if dropQuant && it.Kind == itAssume && strings.Contains(it.Fact, "(forall ") {
+			continue
+		}
+		if dropQuant && it.Kind == itOblig && i != upTo && strings.Contains(it.Fact, "(forall ") {
+			continue
+		}
 		if upTo >= 0 && i > upTo {
 			break
 		}
@@ -101,12 +113,16 @@ func (g *FnGen) renderBody(upTo int, model bool) string {
 }
 
 func (g *FnGen) singleScript(ob *Obligation, model bool) string {
+	return g.singleScriptOpt(ob, model, false)
+}
+
+func (g *FnGen) singleScriptOpt(ob *Obligation, model bool, dropQuant bool) string {
 	var b strings.Builder
 	if model {
 		b.WriteString("(set-option :produce-models true)\n")
 	}
 	b.WriteString("(set-logic ALL)\n")
-	body := g.renderBody(ob.item, model)
+	body := g.renderBodyOpt(ob.item, model, dropQuant)
 	for _, p := range g.D.prelude {
 		b.WriteString(p)
 		b.WriteString("\n")
@@ -244,9 +260,37 @@ func (g *FnGen) raceOne(ob *Obligation, workDir string, timeoutMs int, keep bool
 	if !keep {
 		defer os.Remove(f)
 	}
-	ch := make(chan raceResult, len(solvers))
+	ch := make(chan raceResult, 2*len(solvers))
 	ctx, cancel := context.WithCancel(context.Background())
 	defer cancel()
+	nExtra := 0
+	if strings.Contains(script, "(forall ") {
+		f2 := tmpFile(workDir, "oneqf_"+ob.Name)
+		os.WriteFile(f2, []byte(g.singleScriptOpt(ob, false, true)), 0o644)
+		if !keep {
+			defer os.Remove(f2)
+		}
+		for _, sn := range []string{"z3-new", "cvc5"} {
+			nExtra++
+			go func(s *Solver) {
+				t0 := time.Now()
+				args := s.Cmd(f2, timeoutMs, false)
+				c, cancel2 := context.WithTimeout(ctx, time.Duration(timeoutMs+3000)*time.Millisecond)
+				defer cancel2()
+				cmd := exec.CommandContext(c, args[0], args[1:]...)
+				var out bytes.Buffer
+				cmd.Stdout = &out
+				cmd.Stderr = &out
+				cmd.Run()
+				first := strings.TrimSpace(strings.SplitN(out.String(), "\n", 2)[0])
+				rr := raceResult{solver: s.Name + "(quantified hypotheses dropped)", secs: time.Since(t0).Seconds(), status: "unknown", raw: "no-quantifier variant: " + first}
+				if first == "unsat" {
+					rr.status = "unsat"
+				}
+				ch <- rr
+			}(solverByName(sn))
+		}
+	}
 	for i := range solvers {
 		go func(s *Solver) {
 			t0 := time.Now()
@@ -279,7 +323,7 @@ func (g *FnGen) raceOne(ob *Obligation, workDir string, timeoutMs int, keep bool
 		}(&solvers[i])
 	}
 	var best *raceResult
-	for i := 0; i < len(solvers); i++ {
+	for i := 0; i < len(solvers)+nExtra; i++ {
 		rr := <-ch
 		if rr.status == "unsat" {
 			best = &rr
